@@ -5,6 +5,7 @@ package main
 
 import (
 	"encoding/json"
+	"errors"
 	"fmt"
 	"net/http"
 	"os"
@@ -12,6 +13,7 @@ import (
 	"strconv"
 	"strings"
 	"sync"
+	"time"
 
 	"github.com/PapaCharlie/go-restli/v2/restli"
 	"github.com/PapaCharlie/go-restli/v2/restlidata/generated/com/linkedin/restli/common"
@@ -126,6 +128,9 @@ type c08Scenario struct {
 	Err      *errFields `json:"error_object,omitempty"`
 	Defect   string     `json:"defect,omitempty"`
 	Probe    string     `json:"probe,omitempty"`
+	PanicVal string     `json:"panic_value,omitempty"`
+	Big      string     `json:"big_field,omitempty"`
+	BigSize  int        `json:"big_size,omitempty"`
 }
 
 type c08Observed struct {
@@ -352,13 +357,44 @@ func hasResult(mi *methodInfo) bool {
 	return true
 }
 
+// the values resource code may panic with; the expected message is fmt.Sprint of the recovered value
+type panicKind struct {
+	name string
+	fn   func()
+}
+
+var panicKinds = []panicKind{
+	{"string", func() { panic("kaboom 23") }},
+	{"http.ErrAbortHandler", func() { panic(http.ErrAbortHandler) }},
+	{"runtime:nil-map-write", func() { var m map[string]int; m["x"] = 1 }},
+	{"error", func() { panic(errors.New("kaboom error 29")) }},
+	{"runtime:index-out-of-range", func() { var s []int; i := 5; _ = s[i] }},
+	{"struct", func() {
+		panic(struct {
+			A int
+			B string
+		}{7, "x"})
+	}},
+	{"*ErrorResponse", func() {
+		panic(&common.ErrorResponse{Status: restli.Int32Pointer(418), Message: restli.StringPointer("teapot")})
+	}},
+	{"fmt.Stringer", func() { panic(time.Duration(1500) * time.Millisecond) }},
+}
+
+func panicText(fn func()) (s string) {
+	defer func() { s = fmt.Sprint(recover()) }()
+	fn()
+	return
+}
+
 const c08Site = "v2/restli/handler.go:ServeHTTP / receive / registerMethod; server.go, finders.go, actions.go Register*"
 
 type c08 struct {
-	cfg *hx.Config
-	rep *hx.Report
-	sh  *hx.Shards
-	r   *hx.Rand
+	bigDone map[string]bool
+	cfg     *hx.Config
+	rep     *hx.Report
+	sh      *hx.Shards
+	r       *hx.Rand
 }
 
 func (d *c08) oracle(c *c08Case, mi *methodInfo, before *errFields, clientArgsOK bool) {
@@ -368,7 +404,11 @@ func (d *c08) oracle(c *c08Case, mi *methodInfo, before *errFields, clientArgsOK
 		return
 	}
 	if o.Crashed {
-		fail("crash:"+sc.Kind, "the connection crashed (a panic escaped ServeHTTP / the client saw a transport error) instead of a response")
+		sig := "crash:" + sc.Kind
+		if sc.PanicVal != "" {
+			sig += ":" + sc.PanicVal
+		}
+		fail(sig, "the connection crashed (a panic escaped ServeHTTP / the client saw a transport error) instead of a response")
 		return
 	}
 	if before != nil && o.After != nil && before.key() != o.After.key() {
@@ -484,9 +524,12 @@ func (d *c08) record(c *c08Case, mi *methodInfo) {
 	d.rep.Count("transport=" + c.Transport)
 	d.rep.Count("register=" + c.Kind)
 	d.rep.Count("outcome=" + c.Scenario.Kind + c.Scenario.Defect)
+	if c.Scenario.PanicVal != "" {
+		d.rep.Count("panic-value=" + c.Scenario.PanicVal)
+	}
 	d.rep.Count(fmt.Sprintf("status=%d", c.Observed.Status))
 	d.rep.Count("client=" + strings.SplitN(c.Observed.Client, ":", 2)[0])
-	key := c.Method + "|" + c.Scenario.Kind + "|" + c.Scenario.Defect + "|" + strconv.Itoa(c.Scenario.Override) + "|" + strconv.Itoa(c.Scenario.Created) + "|" + c.Scenario.Msg
+	key := c.Method + "|" + c.Scenario.Kind + "|" + c.Scenario.Defect + "|" + strconv.Itoa(c.Scenario.Override) + "|" + strconv.Itoa(c.Scenario.Created) + "|" + c.Scenario.Msg + "|" + c.Scenario.PanicVal
 	if c.Scenario.Err != nil {
 		key += c.Scenario.Err.key()
 	}
@@ -526,11 +569,19 @@ func (d *c08) scenarios(e *env, mi *methodInfo, full bool, transport string) {
 	}
 	// failures that are not error responses
 	run("plainerr", 0, 0, "plain failure 17", nil)
-	run("panic", 0, 0, "kaboom 23", nil)
+	for i, pk := range panicKinds {
+		if !full && i >= 3 {
+			break
+		}
+		ov := 0
+		if i == 4 {
+			ov = 204
+		}
+		sc := &scenario{Kind: "panic", Override: ov, Msg: panicText(pk.fn), PanicFn: pk.fn, Created: -1, Rand: d.r.Fork(), Tame: true}
+		d.runCase(e, mi, sc, c08Scenario{Kind: "panic", Override: ov, Msg: sc.Msg, PanicVal: pk.name}, transport)
+	}
 	if full {
-		run("panicerr", 0, 0, "kaboom error 29", nil)
 		run("plainerr", 202, 0, "plain failure 31", nil)
-		run("panic", 204, 0, "kaboom 37", nil)
 	}
 	if ptrResult || sliceResult {
 		run("typednil", 0, 0, "", nil)
@@ -550,6 +601,103 @@ func (d *c08) scenarios(e *env, mi *methodInfo, full bool, transport string) {
 			ov = 202
 		}
 		run("errresp", ov, 0, "", buildErr(bits, statuses[(bits/2)%len(statuses)]))
+	}
+}
+
+// ---- big error responses (oracle only: megabyte strings are not handed to the Coq model).  ErrorDetails is an empty struct
+// in the Go bindings, so only message and stackTrace can be big.
+func bigString(n int) string {
+	b := make([]byte, n)
+	for i := range b {
+		switch {
+		case i%4099 == 7:
+			b[i] = '"'
+		case i%8191 == 11:
+			b[i] = '\n'
+		case i%127 == 0:
+			b[i] = "0123456789"[(i/127)%10]
+		default:
+			b[i] = "abcdefghijklmnopqrstuvwxyz"[i%26]
+		}
+	}
+	return string(b)
+}
+
+var bigSizes = []int{64 << 10, 1<<20 - 1<<10, 1 << 20, 3 << 20}
+
+type bigCase struct {
+	Mount     string `json:"mount"`
+	Transport string `json:"transport"`
+	Method    string `json:"method"`
+	Field     string `json:"big_field"`
+	Size      int    `json:"size"`
+	Status    int    `json:"wire_status"`
+	ErrHeader bool   `json:"error_header"`
+	BodyLen   int    `json:"wire_body_length"`
+	Client    string `json:"client"`
+	GotMsgLen int    `json:"client_message_length"`
+	GotStkLen int    `json:"client_stacktrace_length"`
+	Deser     string `json:"deserialization_error,omitempty"`
+}
+
+func (d *c08) bigErrors(e *env, mi *methodInfo, transport string) {
+	for _, field := range []string{"message", "stackTrace", "message+stackTrace"} {
+		for _, n := range bigSizes {
+			obj := buildErr(1|4|8, 422)
+			if strings.Contains(field, "message") {
+				obj.Message = restli.StringPointer(bigString(n))
+			} else {
+				obj.Message = restli.StringPointer("small")
+			}
+			if strings.Contains(field, "stackTrace") {
+				obj.StackTrace = restli.StringPointer(bigString(n))
+			}
+			before := fieldsOf(obj)
+			setScenario(&scenario{Kind: "errresp", Err: obj, Created: -1, Rand: d.r.Fork(), Tame: true})
+			e.T.reset()
+			m := e.clientMethod(mi)
+			cr := callClient(m, genArgs(&genv{r: d.r.Fork(), tame: true}, mi, m.Type()))
+			c := &bigCase{Mount: e.Mount.Name, Transport: transport, Method: mi.ID(), Field: field, Size: n, Client: fmt.Sprintf("%T", cr.Err)}
+			w := e.T.last()
+			d.rep.Evaluations++
+			d.rep.Count("outcome=errresp-big")
+			d.rep.Count(fmt.Sprintf("big=%s:%d", field, n))
+			d.rep.Distinct(fmt.Sprintf("big|%s|%s|%d|%s", mi.ID(), field, n, transport), true)
+			fail := func(what, text string) {
+				d.rep.Fail(fmt.Sprintf("errresp:big:%s", what), text, "v2/restli/errors.go:IsErrorResponse, handler.go:ServeHTTP", c, nil)
+			}
+			if w == nil || w.Crashed || cr.Paniced != "" {
+				fail("crash", "a big error response crashes the exchange")
+				continue
+			}
+			c.Status, c.ErrHeader, c.BodyLen = w.Status, strings.ToLower(w.ResHeader.Get(restli.ErrorResponseHeader)) == "true", len(w.ResBody)
+			if c.Status != 422 || !c.ErrHeader {
+				fail("status-or-header", "a big error response is not sent with its status and the error header")
+			}
+			re, ok := cr.Err.(*restli.Error)
+			if !ok {
+				fail("client-not-error", "the client does not return a *restli.Error for a big error response")
+				continue
+			}
+			got := fieldsOf(&re.ErrorResponse)
+			if got.Message != nil {
+				c.GotMsgLen = len(*got.Message)
+			}
+			if got.Stack != nil {
+				c.GotStkLen = len(*got.Stack)
+			}
+			if re.DeserializationError != nil {
+				c.Deser = fmt.Sprintf("%T", re.DeserializationError)
+				fail("truncated", "a big error response reaches the caller undecoded (DeserializationError set): its body was cut short")
+				continue
+			}
+			if got.key() != before.key() {
+				fail("fields-differ", "the error response the client holds differs from the big one the resource returned")
+			}
+			if fieldsOf(obj).key() != before.key() {
+				fail("object-modified", "the resource's big error object was modified")
+			}
+		}
 	}
 }
 
@@ -650,13 +798,18 @@ func (d *c08) malformed(e *env, mi *methodInfo) {
 	}
 }
 
+// method kinds that get the big error responses in the quick tier (one resource method of each reading style)
+var bigKinds = map[string]bool{"Get": true, "Create": true, "Update": true, "BatchGet": true, "Finder": true, "ActionWithResults": true}
+
 func runC08(cfg *hx.Config) {
-	d := &c08{cfg: cfg, r: hx.NewRand(cfg.Seed)}
+	d := &c08{cfg: cfg, r: hx.NewRand(cfg.Seed), bigDone: map[string]bool{}}
 	d.rep = hx.NewReport("every method of every resource of the family (12 resources through the REAL generator: collections keyed by int64 / string / " +
 		"typeref / enum / complex key, simple, action set, sub- and sub-sub-resources, return-entity variants, read-only fields) x outcome of the " +
 		"implementation {value, overridden ctx.ResponseStatus, CreatedEntity.Status, typed nil, nil element, ErrorResponse with each of the 64 subsets of " +
 		"{status, message, serviceErrorCode+code, exceptionClass, errorDetails, docUrl+requestId+errorDetailType+stackTrace}, plain error, panic(string), " +
-		"panic(error), combinations with an overridden status} x mounting {bare handler, ServeMux, prefixed server} (full product on the bare handler, a " +
+		"panic with an error value, a runtime error (nil map write, index out of range), a struct, http.ErrAbortHandler, an *ErrorResponse, a Stringer; " +
+		"combinations with an overridden status; big error responses (message / stackTrace of 64 KiB, 1 MiB - 1 KiB, 1 MiB, 3 MiB, compared field by field at the " +
+		"client, oracle only)} x mounting {bare handler, ServeMux, prefixed server} (full product on the bare handler, a " +
 		"subset on the others), in-process through the serialized request plus a real-socket sample; malformed requests (bad key, missing required " +
 		"parameter, undecodable body, unexpected body) per method; statuses outside 100..999 as probes. non-trivial = any outcome other than the plain value; " +
 		"distinct by (method, outcome, fields)")
@@ -670,6 +823,10 @@ func runC08(cfg *hx.Config) {
 				d.scenarios(e, me, mi == 0 || cfg.Thorough(), "in-process")
 				if mi == 0 {
 					d.malformed(e, me)
+					if bigKinds[me.Kind] && (cfg.Thorough() || !d.bigDone[me.Kind+"/in-process"]) {
+						d.bigDone[me.Kind+"/in-process"] = true
+						d.bigErrors(e, me, "in-process")
+					}
 				}
 			}
 		}
@@ -681,6 +838,10 @@ func runC08(cfg *hx.Config) {
 		for _, r := range rs {
 			for _, me := range r.Methods {
 				d.scenarios(e, me, false, "socket")
+				if bigKinds[me.Kind] && !d.bigDone[me.Kind+"/socket"] {
+					d.bigDone[me.Kind+"/socket"] = true
+					d.bigErrors(e, me, "socket")
+				}
 			}
 		}
 		e.close()
